@@ -10,7 +10,8 @@ EXTENDS MCBase
 
 V6 == Corpus("V6")
 E6 == Corpus("E6")
-NPos == 16
+LA6 == Corpus("LA6")
+NPos == 19
 
 VARIABLES c, phase
 vars == <<c, phase>>
@@ -30,7 +31,7 @@ ExprOf(cc) == CASE cc.way = 1 -> V6[cc.i]
                 [] cc.way = 3 -> E6[cc.i]
                 [] cc.way = 4 -> VarOf(S_vsm1)                   \* a dotted path with a negative index
                 [] cc.way = 5 -> Op(K_var, <<IntV(-1)>>)         \* an integer key into array data
-DataOf(cc) == CASE cc.way = 1 -> Null
+DataOf(cc) == CASE cc.way \in {1, 6} -> Null
                 [] cc.way = 2 -> Obj(<< <<S_v, V6[cc.i]>> >>)
                 [] cc.way = 3 -> Obj(<<>>)
                 [] cc.way = 4 -> Obj(<< <<S_vs, Arr(<<IntV(0), V6[cc.i]>>)>> >>)
@@ -38,7 +39,26 @@ DataOf(cc) == CASE cc.way = 1 -> Null
 \* the value reached (for way 3 through the specification itself)
 ValOf(cc) == IF cc.way = 3 THEN Eval(E6[cc.i], Obj(<<>>)).v ELSE V6[cc.i]
 
+PairRule(cc) ==
+  LET col == Arr(<<LA6[cc.i], LA6[cc.pos]>>) IN
+  CASE cc.op = 1 -> Op(K_filter, <<col, VarOf(<<>>)>>)
+    [] cc.op = 2 -> Op(K_map, <<col, Op(K_notnot, <<VarOf(<<>>)>>)>>)
+    [] cc.op = 3 -> Op(K_all, <<col, VarOf(<<>>)>>)
+    [] cc.op = 4 -> Op(K_some, <<col, VarOf(<<>>)>>)
+    [] cc.op = 5 -> Op(K_filter, <<Op(K_merge, <<col, col>>), Op(K_not, <<VarOf(<<>>)>>)>>)
+PairExpected(cc) ==
+  LET a == LA6[cc.i]
+      b == LA6[cc.pos]
+      ta == ~IsFalsy(a)
+      tb == ~IsFalsy(b)
+      keep(x, t) == IF t THEN <<x>> ELSE <<>>
+  IN CASE cc.op = 1 -> Arr(keep(a, ta) \o keep(b, tb))
+       [] cc.op = 2 -> Arr(<<Bool(ta), Bool(tb)>>)
+       [] cc.op = 3 -> Bool(ta /\ tb)
+       [] cc.op = 4 -> Bool(ta \/ tb)
+       [] cc.op = 5 -> Arr(keep(a, ~ta) \o keep(b, ~tb) \o keep(a, ~ta) \o keep(b, ~tb))
 RuleOf(cc) ==
+  IF cc.way = 6 THEN PairRule(cc) ELSE
   LET e == ExprOf(cc)
       D == DataOf(cc)
   IN CASE cc.pos = 1 -> Op(K_not, <<e>>)
@@ -58,9 +78,14 @@ RuleOf(cc) ==
        \* the bracket-less spelling (an array LITERAL cannot be written without brackets: it would be the operand list)
        [] cc.pos = 15 -> IF e.t = "a" THEN Op(K_notnot, <<e>>) ELSE OpU(K_notnot, e)
        [] cc.pos = 16 -> IF e.t = "a" THEN Op(K_not, <<e>>) ELSE OpU(K_not, e)
+       \* the expression as the member of a LITERAL collection (evaluated against the outer data), identity predicate
+       [] cc.pos = 17 -> Op(K_all, <<Arr(<<e>>), VarOf(<<>>)>>)
+       [] cc.pos = 18 -> Op(K_some, <<Arr(<<IntV(0), e>>), VarOf(<<>>)>>)
+       [] cc.pos = 19 -> Op(K_none, <<Arr(<<e, Null>>), VarOf(<<>>)>>)
 
 \* what the statement's table dictates for each position
 Expected(cc) ==
+  IF cc.way = 6 THEN PairExpected(cc) ELSE
   LET v == ValOf(cc)
       D == DataOf(cc)
       t == ~IsFalsy(v)
@@ -80,8 +105,13 @@ Expected(cc) ==
        [] cc.pos = 14 -> IF t THEN ST ELSE v
        [] cc.pos = 15 -> Bool(t)
        [] cc.pos = 16 -> Bool(~t)
+       [] cc.pos = 17 -> Bool(t)
+       [] cc.pos = 18 -> Bool(t)
+       [] cc.pos = 19 -> Bool(~t)
 
+\* way 6: PAIRS of look-alike values (0 / "0", null / "null", ...) in one collection; i, pos index the pair, op the operator
 Family == [way : {1, 2, 4, 5}, i : 1..Len(V6), pos : 1..NPos] \cup [way : {3}, i : 1..Len(E6), pos : 1..NPos]
+          \cup [way : {6}, i : 1..Len(LA6), pos : 1..Len(LA6), op : 1..5]
 
 Init == c \in Family /\ phase = "new"
 Next == phase = "new" /\ phase' = "done" /\ UNCHANGED c
@@ -90,14 +120,14 @@ Spec == Init /\ [][Next]_vars
 Outcome(cc) == Eval(RuleOf(cc), DataOf(cc))
 
 \* -------- invariants on the specification
-TableAgreement == phase = "done" => (Truthy(ValOf(c)) <=> ~IsFalsy(ValOf(c)))
+TableAgreement == phase = "done" /\ c.way # 6 => (Truthy(ValOf(c)) <=> ~IsFalsy(ValOf(c)))
 PositionsFollowTable ==
   phase = "done" => LET o == Outcome(c) IN o.ok /\ SameValue(o.v, Expected(c))
 NegationExact ==
-  phase = "done" /\ c.pos = 1 =>
+  phase = "done" /\ c.way # 6 /\ c.pos = 1 =>
     LET a == Outcome(c)
         b == Outcome([c EXCEPT !.pos = 2])
     IN a.ok /\ b.ok /\ a.v.v = ~b.v.v
 ExportCases ==
-  phase = "done" => Export(<<c.way, c.i, c.pos>>, RuleOf(c), DataOf(c), Outcome(c), <<"C06">>, NoFlags)
+  phase = "done" => Export(<<c.way, c.i, c.pos, IF c.way = 6 THEN c.op ELSE 0>>, RuleOf(c), DataOf(c), Outcome(c), <<"C06">>, NoFlags)
 =============================================================================
